@@ -742,15 +742,20 @@ def run(c):
         "vlib/c04.py: encoding of the design IR attribute and the sent value into the driver's prefix notation; format verdicts come from a table "
         "of known-good/known-bad samples per format, pattern verdicts from Python's re on the generator's five simple patterns",
         "harness/e2ert + glue as for C02; 'transmitted' normalisation: outside a body \"\" and [] are absent (recorded under C02/C03)",
-        "the code generator itself is not modelled: correspondence is by execution on the generated designs",
+        "gofacts valcode (T2): runs codegen.AttributeValidationCode on one attribute per kind x keyword x pointer cell and parses the emitted Go "
+        "(nil guard, compared quantity, operator, bound, error constructor); Props/C04.lean proves these single checks correct; their recursive "
+        "assembly by the generator is not modelled: correspondence is by execution on the generated designs",
     ]
-    have = c.go_build("genrun")
+    have = c.go_build("genrun", "gofacts")
     lean_ok = False
-    if c.lake_build("GoaVerif.Props.C04"):
+    # T2: the checks codegen.AttributeValidationCode emits, regenerated from /repo (Props/C04.lean proves them correct)
+    if c.gofacts("valcode", "FactsValCode") and c.lake_build("GoaVerif.Props.C04"):
         c.audit("C04")
         if c.tier == "thorough":
             c.leanchecker("C04")
-        lean_ok = c.lake_build("drv_valid", what="tie")
+    # the driver only needs the specification: when a theorem about the emitted checks no longer holds, the
+    # exchanges below are the search for a failing value
+    lean_ok = c.lake_build("drv_valid", what="tie")
     if not (have and lean_ok):
         return
     drv = os.path.join(LEAN, ".lake/build/bin/drv_valid")
